@@ -30,10 +30,10 @@ func vfC16Slot(key uint64, mask int) int {
 
 var (
 	vfC16Once     sync.Once
-	vfC16BySlot8  [8][]uint64     // keys by slot in an 8-slot table
-	vfC16SegKeys  [4][3][]uint64  // cache (256 segments): 4 chosen segments × slots {6,7,0} of an 8-slot table
-	vfC16Seg16    [2][3][]uint64  // 16-segment map: 2 chosen segments × slots {6,7,0}
-	vfC16SegOther []uint64        // keys of other segments
+	vfC16BySlot8  [8][]uint64    // keys by slot in an 8-slot table
+	vfC16SegKeys  [4][3][]uint64 // cache (256 segments): 4 chosen segments × slots {6,7,0} of an 8-slot table
+	vfC16Seg16    [2][3][]uint64 // 16-segment map: 2 chosen segments × slots {6,7,0}
+	vfC16SegOther []uint64       // keys of other segments
 	vfC16Specials = []uint64{0, 1, 2, 3, 8, 16, 1 << 32, 1<<63 + 5, ^uint64(0), ^uint64(0) - 1}
 )
 
